@@ -1,8 +1,9 @@
 import GT.Base.JsonQ
 import GT.Base.QSqrt
 import GT.Model.Isometry
+import GT.Model.GramSchmidt
 import GT.Model.LinAlgQ
-open Lean GT.J GT Matrix GT.Iso GT.LinAlgQ
+open Lean GT.J GT Matrix GT.Iso GT.LinAlgQ GT.GS
 namespace GT.Driver.C02
 
 /-- square rational matrix of any size with its dimension -/
@@ -30,6 +31,29 @@ def ellipticOp (j : Json) : R Json := do
   let cv ← boolf j "column_vectors"
   return ofMat (if cv then elliptic O else ellipticRow O)
 
+/-- `Iso.loxodromic u` with the two products materialised (what `c02.loxodromic` answers) -/
+def loxodromicD {m : ℕ} (u : ℚ) : DMat (m + 2) (m + 2) ℚ :=
+  let T := DMat.ofMatrix (loxB (m := m) * loxDiag u)
+  DMat.ofMatrix (T.toMatrix * loxBinv)ᵀ
+
+theorem loxodromicD_eq {m : ℕ} (u : ℚ) : (loxodromicD (m := m) u).toMatrix = loxodromic u := by
+  simp [loxodromicD, loxodromic, loxodromicMat]
+
+/-- `Iso.sl2ToSo21 A` with every product materialised -/
+def sl2ToSo21D (A : Matrix (Fin 2) (Fin 2) ℚ) : DMat 3 3 ℚ :=
+  let A3 := DMat.ofMatrix (sl2Irrep3 A)
+  let L := DMat.ofMatrix (perm210 * killingConj * A3.toMatrix)
+  DMat.ofMatrix (L.toMatrix * killingConjInv * perm210)
+
+theorem sl2ToSo21D_eq (A : Matrix (Fin 2) (Fin 2) ℚ) : (sl2ToSo21D A).toMatrix = sl2ToSo21 A := by
+  simp [sl2ToSo21D, sl2ToSo21]
+
+/-- `Iso.sl2Iso A` (what `c02.sl2` answers) -/
+def sl2IsoD (A : Matrix (Fin 2) (Fin 2) ℚ) : DMat 3 3 ℚ := DMat.ofMatrix (sl2ToSo21D A).toMatrixᵀ
+
+theorem sl2IsoD_eq (A : Matrix (Fin 2) (Fin 2) ℚ) : (sl2IsoD A).toMatrix = sl2Iso A := by
+  simp [sl2IsoD, sl2Iso, sl2ToSo21D_eq]
+
 /-- `Isometry.standard_loxodromic(dim, u)` -/
 def loxodromicOp (j : Json) : R Json := do
   let dim ← natf j "dim"
@@ -37,16 +61,12 @@ def loxodromicOp (j : Json) : R Json := do
   if u = 0 then throw "DivZero"
   match dim with
   | 0 => throw "ValueError"
-  | m + 1 =>
-    let T := DMat.ofMatrix (loxB (m := m) * loxDiag u)
-    return ofD (DMat.ofMatrix (T.toMatrix * loxBinv)ᵀ)
+  | m + 1 => return ofD (loxodromicD (m := m) u)
 
 /-- `hyperbolic.sl2_iso(A)` -/
 def sl2Op (j : Json) : R Json := do
   let A ← matf 2 2 j "A"
-  let A3 := DMat.ofMatrix (sl2Irrep3 A)
-  let L := DMat.ofMatrix (perm210 * killingConj * A3.toMatrix)
-  return ofD (DMat.ofMatrix (L.toMatrix * killingConjInv * perm210)ᵀ)
+  return ofD (sl2IsoD A)
 
 /-- `Subspace.reflection_across` from hyperplane data `D` (inverse certified: `certInv_spec`) -/
 def reflectOp (j : Json) : R Json := do
@@ -103,8 +123,58 @@ def applyOp (j : Json) : R Json := do
       ("before", ofQArr #[mink x x, mink y y, mink x y]),
       ("after", ofQArr #[mink xm xm, mink ym ym, mink xm ym])]
 
+/-- optional list of rows of length `n` under `k` (absent: no rows) -/
+def rowsOpt (n : ℕ) (j : Json) (k : String) : R (List (Fin n → ℚ)) := do
+  match j.getObjVal? k with
+  | .error _ => pure []
+  | .ok v =>
+    let a ← qArr2 v
+    if a.any (fun r => r.size ≠ n) then throw s!"expected rows of length {n}"
+    return a.toList.map fun r => (⟨r⟩ : DVec n ℚ).toFn
+
+/-- every root the frame constructors take on `part ++ ker` must be rational: the square-norms of the
+Gram–Schmidt rows (a null row that a later one is projected on is a division by zero) -/
+def frameGuard {n : ℕ} (part ker : List (Fin (n + 1) → ℚ)) : R Unit := do
+  for l in [part, ker] do
+    let out := gsD (minkJ n) (l.map DVec.ofFn)
+    let norms := out.map fun v => bil (minkJ n) v.toFn v.toFn
+    if (norms.dropLast).any (· = 0) then throw "DivZero"
+    for q in norms do
+      if !isSq |q| then throw "irrational-root"
+
+/-- the SVD-based constructors of `hyperbolic.py` given a kernel basis `ker` (absent: only the rows the
+algorithm determines): `Point.origin_to` (`kind = "origin_to"`, point `x`), `TangentVector.origin_to`
+(`"tv_origin_to"`, base point `x`, stored vector `v`), `hyperbolic.spacelike_to` (`"spacelike_to"`, vector `v`);
+the model definitions themselves are evaluated, each answered row materialised once -/
+def frameOp (j : Json) : R Json := do
+  let kind ← strf j "kind"
+  let va ← qArr (← field j (if kind == "spacelike_to" then "v" else "x"))
+  match va.size with
+  | 0 => throw "empty vector"
+  | n + 1 =>
+    let x ← vec (n + 1) (.arr (va.map ofQ))
+    let ker ← rowsOpt (n + 1) j "ker"
+    if !isSq |bil (minkJ n) x x| then throw "irrational-root"
+    let rows ← (do
+      if kind == "spacelike_to" then
+        frameGuard (spacelikeFrame rsqrt x) ker
+        pure (spacelikeTo rsqrt x ker)
+      else
+        let xn := DVec.ofFn (normalizeVec rsqrt (minkJ n) x)
+        let σ := sheetSign xn.toFn
+        if kind == "origin_to" then
+          frameGuard [σ • xn.toFn] ker
+          pure (originTo rsqrt x ker)
+        else if kind == "tv_origin_to" then
+          let v ← vecf (n + 1) j "v"
+          if !isSq |bil (minkJ n) v v| then throw "irrational-root"
+          frameGuard [σ • xn.toFn, σ • normalizeVec rsqrt (minkJ n) v] ker
+          pure (tangentOriginTo rsqrt x v ker)
+        else throw "unknown kind")
+    return .arr (rows.toArray.map fun r => ofQArr (DVec.ofFn r).a)
+
 def ops : List (String × Handler) :=
   [("c02.rotation", rotationOp), ("c02.elliptic", ellipticOp), ("c02.loxodromic", loxodromicOp),
    ("c02.sl2", sl2Op), ("c02.reflect", reflectOp), ("c02.refl_closed", reflClosedOp),
-   ("c02.word", wordOp), ("c02.residual", residualOp), ("c02.apply", applyOp)]
+   ("c02.word", wordOp), ("c02.residual", residualOp), ("c02.apply", applyOp), ("c02.frame", frameOp)]
 end GT.Driver.C02
